@@ -14,8 +14,12 @@ TARGETS = ["Base/Corr.vo", "Base/Fl.vo", "Base/Num.vo", "C01/Model.vo", "C01/Mod
            "C08/ProofsVecSelf.vo", "C08/PropsS.vo",
            # round 6: scalar operand = a cell of the receiver; receivers re-used over a history of orders
            "C08/ModelSc.vo", "C08/CorrSc.vo", "C08/ProofsSc.vo", "C08/ProofsScDense.vo", "C08/PropsSc.vo",
-           "C08/ProofsHist.vo", "C08/PropsH.vo"]
-PROPS = ["C08/Props.v", "C08/PropsS.v", "C08/PropsSc.v", "C08/PropsH.v"]
+           "C08/ProofsHist.vo", "C08/PropsH.vo",
+           # round 7: receiver a prefix slice of the vector operand (non-square matrix) in MdotV / VdotM
+           "C08/ProofsVecPrefix.vo", "C08/PropsV.vo",
+           # round 7: buffers tmp1 / tmp2 of the Real matrices through Slice / T / Tip / Clone histories
+           "C08/ModelT.vo", "C08/CorrT.vo", "C08/ProofsT.vo", "C08/PropsT.vo"]
+PROPS = ["C08/Props.v", "C08/PropsS.v", "C08/PropsSc.v", "C08/PropsH.v", "C08/PropsV.v", "C08/PropsT.v"]
 PARTIAL = ("Scalar theorems are about the shared register-file model coq/C01/Model.v (HEAD incl. the fixes 7035970, 2fc8894, d9fca78), for "
            "an ARBITRARY carrier (floats included, no ring law used): closed form of both combinators for every receiver, receiver "
            "independence of every single-step operation (20 one-operand ops, Add Sub Mul Div Pow Sqrt) under the computed side condition "
@@ -55,7 +59,19 @@ PARTIAL = ("Scalar theorems are about the shared register-file model coq/C01/Mod
            "every step of generated histories (order 2 -> order 1 / 0 -> SetFloat64 / Reset -> in-place op with an order-2 operand, one "
            "or two rounds, Real64 / Real32, generic / concrete) is replayed bit-exactly from Go's raw pre-state; NOT proved: a "
            "history-level theorem that the in-place result equals the fresh-receiver result after Reset (single-step theorems + "
-           "alloc lemma + hunt).")
+           "alloc lemma + hunt). "
+           "ROUND 7 (PropsV.v, PropsT.v). Dense MdotV / VdotM whose receiver and vector operand start at the SAME CELL with ANY lengths "
+           "(receiver a prefix slice of the operand or the reverse: non-square matrix): Panic or (a dimension is 0 and the heap is "
+           "untouched), no hypothesis on shapes; the call IS guard-then-loop, and the unguarded loop is refuted on prefix slices "
+           "(witnesses) — so a rejection that also asks for equal lengths is decided. Tied: the Float64 replay now also runs the concrete "
+           "twins MDOTV / VDOTM and forced prefix patterns; the other eight dense element types x four functions are HUNT only "
+           "(same-start must end in the API's explicit panic, a runtime error is not a rejection). Buffers tmp1 / tmp2 of the Real "
+           "matrices (model ModelT.v: shape + len/cap through New / Slice / T / Tip / Clone): after ANY history the product's buffer "
+           "slices succeed whether or not the receiver is a factor; Tip without the swap breaks it for every non-square fresh matrix. "
+           "Tied by a trace stream (Real64 / Real32; shape and 'buffer holds the shape' per step, read by reflection). NOT modelled: the "
+           "buffers' CONTENTS and sharing between views (T() views share the parent's buffers: two views used as receivers in one "
+           "product cannot happen, but nested calls could interleave), Tip on sliced views (its cycle walk is C10's business; not "
+           "generated), the product's VALUES after Tip (hunt: all nine element types, r = a and r = b, generic and concrete).")
 CORPUS = os.path.join(vlib.ROOT, "corpus/C08/corpus.jsonl")
 
 # hunt sites that are defects owned by other properties' known findings (referenced, not duplicated)
@@ -97,7 +113,7 @@ def corr(ctx, binary, n):
                       "harness failed on the implementation (crash while generating cases)")
         return []
     bad = []
-    for name in ("cases", "mat", "sp", "sc"):
+    for name in ("cases", "mat", "sp", "sc", "tmp"):
         meta = json.load(open(os.path.join(ctx.dir, name + ".meta.json")))
         meta["name"] = name
         vlib.merge_meta(ctx, meta)
@@ -141,6 +157,10 @@ def describe(case):
     if case.get("hist"):
         m = case["hist"]
         return "a step of the history %s (kind %s, N %s)" % (m.get("pat"), m.get("kind"), m.get("n"))
+    if case.get("tmp"):
+        m = case["tmp"]
+        return "buffers tmp1/tmp2 of a %s matrix %sx%s after %s" % (m.get("kind"), m.get("N"), m.get("M"),
+                                                                   ", ".join(o.get("op", "?") for o in m.get("ops", [])))
     if case.get("sp"):
         m = case["sp"]
         return "sparse stream: %s %s, %s receiver, element type %s, stored pattern %s" % (
@@ -203,7 +223,7 @@ def run(ctx):
                           True, "model and implementation disagree on %d case(s); concrete input: %s" % (len(bad), hit["failure"]))
         elif bad:
             ctx.violation({"case": bad[0], "n_mismatching": len(bad),
-                           "obligation": "correspondence C01.Corr.check / C08.Corr.mcheck / C08.CorrS.scheck / C08.CorrSc.sccheck (model vs implementation)"},
+                           "obligation": "correspondence C01.Corr.check / C08.Corr.mcheck / C08.CorrS.scheck / C08.CorrSc.sccheck / C08.CorrT.tcheck (model vs implementation)"},
                           False, "model and implementation disagree on %d case(s) (first: %s), but no alias pattern violating the property was found"
                           % (len(bad), describe(bad[0])))
 
